@@ -16,6 +16,7 @@ import (
 	"os"
 	"os/exec"
 	"path/filepath"
+	"sort"
 	"strings"
 	"sync"
 	"sync/atomic"
@@ -752,7 +753,7 @@ func (y yamlCase) tag() (tag string, comp *string, accepted bool) {
 	return "", nil, false
 }
 
-func yamlCases(nameLen int) []yamlCase {
+func yamlCases(nameLen int, shapes []string) []yamlCase {
 	var res []yamlCase
 	snaps := []string{"ab", "a-0", rep("a", 40), "a", rep("a", 41), "Ab"}
 	keys := []string{"", "1", "0123456789", "01234567890", "A"}
@@ -795,6 +796,25 @@ func yamlCases(nameLen int) []yamlCase {
 			// long names: the tag crosses snap-confine's length limit
 			for _, n := range []int{190, 199, 200, 201, 240, 243, 244, 245, 250, 260} {
 				res = append(res, yamlCase{SnapName: s, Key: k, Kind: "app", Name: rep("a", n)}, yamlCase{SnapName: s, Key: k, Kind: "hook", Name: rep("a", n)})
+			}
+		}
+	}
+	// position-uniform product: snap, key, component and app/hook name all range over the shape alphabet
+	for _, s := range shapes {
+		for _, k := range shapes {
+			for _, n := range shapes {
+				res = append(res, yamlCase{SnapName: s, Key: k, Kind: "app", Name: n}, yamlCase{SnapName: s, Key: k, Kind: "hook", Name: n})
+				for _, c := range shapes {
+					res = append(res, yamlCase{SnapName: s, Key: k, Kind: "component-hook", Name: n, Comp: c})
+				}
+			}
+		}
+		for _, k := range []string{"", "1"} {
+			for _, n := range append([]string{"install", "configure"}, shapes...) {
+				res = append(res, yamlCase{SnapName: s, Key: k, Kind: "yaml-app", Name: n}, yamlCase{SnapName: s, Key: k, Kind: "yaml-hook", Name: n})
+				for _, c := range shapes {
+					res = append(res, yamlCase{SnapName: s, Key: k, Kind: "yaml-component-hook", Name: n, Comp: c})
+				}
 			}
 		}
 	}
@@ -942,6 +962,44 @@ func TestC24(t *testing.T) {
 	r.Add("tags_token_sequences", tagCount)
 	r.Add("tag_queries_token_sequences", tagQueriesCount)
 
+	// ---- part 3b: position-uniform product: every position of a tag ranges over the shape alphabet ----
+	shapes := shapeNames(r.Thorough())
+	{
+		pt, gen := positionalTags(shapes)
+		const per = 4000
+		nch := (len(pt) + per - 1) / per
+		var q, parsed int64
+		eng.ParallelFor(nch, func(ci int) {
+			if j.full() {
+				return
+			}
+			if r.TimeUp() {
+				r.Cap("time", "positional tag product stopped early")
+				return
+			}
+			hi := (ci + 1) * per
+			if hi > len(pt) {
+				hi = len(pt)
+			}
+			var recs []record
+			var np int64
+			for _, tg := range pt[ci*per : hi] {
+				if _, err := naming.ParseSecurityTag(tg); err == nil {
+					np++
+				}
+				recs = tagQueries(tg, recs)
+			}
+			out := runDriver(bin, recs)
+			j.judgeRecords(recs, out)
+			atomic.AddInt64(&q, int64(len(recs)))
+			atomic.AddInt64(&parsed, np)
+		})
+		r.Add("tags_positional_generated", gen)
+		r.Add("tags_positional_distinct", int64(len(pt)))
+		r.Add("tags_positional_parsed_by_daemon", parsed)
+		r.Add("tag_queries_positional", q)
+	}
+
 	// ---- part 4: structured tags + byte sweep ----
 	{
 		var recs []record
@@ -968,7 +1026,7 @@ func TestC24(t *testing.T) {
 	}
 
 	// ---- part 5: tags generated by the daemon for accepted apps/hooks ----
-	yc := yamlCases(yamlLen)
+	yc := yamlCases(yamlLen, shapes)
 	checkYaml(j, bin, yc, false)
 
 	r.Add("evaluations", j.evals)
@@ -981,7 +1039,7 @@ func TestC24(t *testing.T) {
 		r.Distinct("verdict_pattern", k)
 	}
 	r.Info("reference_predicate_disagreements_with_daemon", j.refDisagree)
-	r.Info("bounds", map[string]interface{}{"name_alphabet": fmt.Sprintf("%q", nameAlphabet), "name_max_len": nameLen, "tag_tokens": tagTokens, "tag_max_tokens": tagLen, "yaml_name_max_len": yamlLen, "tag_length_limit": tagMaxLen})
+	r.Info("bounds", map[string]interface{}{"name_alphabet": fmt.Sprintf("%q", nameAlphabet), "name_max_len": nameLen, "shape_alphabet": fmt.Sprintf("%q", shapes), "tag_tokens": tagTokens, "tag_max_tokens": tagLen, "yaml_name_max_len": yamlLen, "tag_length_limit": tagMaxLen})
 	r.Sample(record{kind: 'N', f1: "a-z_09"}.toCase())
 	r.Sample(record{kind: 'T', f1: "snap.ab_0+ab.hook.a", f2: "ab_0", f3: "ab"}.toCase())
 	r.Sample(record{kind: 'U', f1: "snap.ab.hook", f2: "ab"}.toCase())
